@@ -538,6 +538,24 @@ def check_reindex_loops(run, rule):
                 ctr, how = path(r_["e"])[0], r_["op"]
             elif isinstance(r_, dict) and r_.get("k") == "Ref" and path(r_) and path(r_)[0].startswith("l:"):
                 ctr, how = path(r_)[0], "plain"
+            # a by-value copy made inside the loop body (the parameter of an expanded helper: `index_item(item, pos++)`)
+            for _ in range(3):
+                if ctr is None or how != "plain":
+                    break
+                dv = None
+                for d in ir.walk(lp.get("body")):
+                    if d.get("k") == "Decl":
+                        for v in d.get("vars", []):
+                            if "l:%s#%s" % (v.get("n"), v.get("id")) == ctr and v.get("init") is not None:
+                                dv = unwrap_all_casts(v["init"])
+                if dv is None:
+                    break
+                if isinstance(dv, dict) and dv.get("k") == "Un" and dv.get("op") in ("post++", "post--", "pre++", "pre--") and path(dv.get("e")) and path(dv["e"])[0].startswith("l:"):
+                    ctr, how = path(dv["e"])[0], dv["op"]
+                elif isinstance(dv, dict) and dv.get("k") == "Ref" and path(dv) and path(dv)[0].startswith("l:"):
+                    ctr = path(dv)[0]
+                else:
+                    ctr = None
             if ctr is None:
                 continue
             pat = (f.get("file"), lp.get("l"))
